@@ -3,15 +3,15 @@ CONSTANTS
   UseStaticCfg = TRUE
   StaticCfg <- DefaultCfg
   Dev = {"RefundTruncatedDust"}
-  Family = "econ"
+  Family = "fees"
   MaxLen = 40
-  Amts = {10, 101, 7, 5000}
-  Fees = {0, 3, 1}
+  Amts = {10, 101, 400}
+  Fees = {0, 3, 20}
   Users = {"a1", "a2"}
-  SendChains = {"ethereum", "minter"}
+  SendChains = {"ethereum"}
   Denoms = {"usd", "hub"}
   DepChains = {"minter", "ethereum"}
-  DepDests = {"hub", "ethereum", "minter"}
+  DepDests = {"ethereum", "hub"}
   MaxSends = 8
   MaxDeposits = 5
   MaxBlocks = 30
@@ -19,11 +19,11 @@ CONSTANTS
   Exts = {"e1", "e2", "e3"}
   KeyChains = {"ethereum", "minter"}
   KeyVariants = {"good", "wrongtx", "wrongkey", "stale", "wrongval"}
-  DepAmts = {40}
-  DepFees = {0, 2}
-  WithKeysAndPrices = FALSE
-  FeePaids = {1}
-  StakePowers = {0, 1, 2, 3}
+  DepAmts = {40, 400, 10000}
+  DepFees = {0, 2, 300}
+  WithKeysAndPrices = TRUE
+  FeePaids = {0, 1, 3, 50}
+  StakePowers = {1, 2, 3}
   WatchNames = {}
   KeepHist = TRUE
   TwoLevel = TRUE
